@@ -6,6 +6,7 @@ import TvFs.Model.Fs
 import TvFs.Model.Spec
 import TvFs.Model.Patterns
 import TvFs.Model.Fragment
+import TvFs.Model.Fixed
 
 open TV.Fs
 
@@ -198,7 +199,27 @@ structure Verdict where
 def addCov (cov : List String) (tags : List String) : List String :=
   tags.foldl (fun acc t => if acc.contains t then acc else acc ++ [t]) cov
 
-def evalCase (prop : String) (c : CaseIn) : Verdict := Id.run do
+/-- findings whose pattern explains nothing once the corresponding repair is in (finding 5 is only
+    narrowed by its repair, so its pattern stays) -/
+def repairedIds (fx : Fixes) : List Nat :=
+  (if fx.readOrder then [1] else []) ++ (if fx.childRenamedIn then [7] else [])
+  ++ (if fx.createOverDir then [9] else []) ++ (if fx.syncRenameBoth then [11] else [])
+
+def fxName (fx : Fixes) : String :=
+  "+".intercalate ((if fx.readOrder then ["1"] else []) ++ (if fx.renameKind then ["5"] else [])
+    ++ (if fx.childRenamedIn then ["7"] else []) ++ (if fx.createOverDir then ["9"] else [])
+    ++ (if fx.syncRenameBoth then ["11"] else []))
+
+/-- all repair-flag combinations, fewest flags first -/
+def allFixes : List Fixes :=
+  let bools := [false, true]
+  let all : List Fixes := bools.flatMap fun a => bools.flatMap fun b => bools.flatMap fun c =>
+    bools.flatMap fun d => bools.map fun e =>
+      { readOrder := a, renameKind := b, childRenamedIn := c, createOverDir := d, syncRenameBoth := e }
+  let cnt (f : Fixes) : Nat := (fxName f).length
+  (all.filter (· != {})).toArray.qsort (fun x y => cnt x < cnt y) |>.toList
+
+def evalCase (prop : String) (c : CaseIn) (fx : Fixes := {}) : Verdict := Id.run do
   let cfg : Cfg := { block := c.block }
   let mut sts : Array St := #[St.init, St.init]
   let mut sps : Array Spec := #[Spec.init, Spec.init]
@@ -218,11 +239,11 @@ def evalCase (prop : String) (c : CaseIn) : Verdict := Id.run do
       let st := sts[h]!
       let sp := sps[h]!
       v := { v with cov := addCov v.cov (covOf st op r.ora) }
-      let (st1, mo) := step cfg st op r.ora
-      let (sp1, so) := sStep cfg sp op r.ora
+      let (st1, mo) := if fx == {} then step cfg st op r.ora else stepFx fx cfg st op r.ora
+      let (sp1, so) := if fx == {} then sStep cfg sp op r.ora else sStepFx fx cfg sp op r.ora
       sts := sts.set! h st1
       sps := sps.set! h sp1
-      let ts := monStep cfg taints[h]! st sp op r.ora
+      let ts := (monStepOk taints[h]! st sp op (mo == .ok)).filter fun t => !(repairedIds fx).contains t.1
       taints := taints.set! h ts
       used := used.set! h true
       if !crashed[h]! && op != .crash then
@@ -280,23 +301,45 @@ def parseCfg (c : CaseIn) (toks : List String) : CaseIn := Id.run do
     | _ => pure ()
   return c
 
-def finishCase (prop : String) (c : CaseIn) : IO (Bool × Bool) := do
-  let v := evalCase prop c
+def parseFx (s : String) : Fixes :=
+  let ids := (s.splitOn "+").map natOf
+  { readOrder := ids.contains 1, renameKind := ids.contains 5, childRenamedIn := ids.contains 7,
+    createOverDir := ids.contains 9, syncRenameBoth := ids.contains 11 }
+
+/-- the variant tried first (`--fx 1+9`; default: the code as found) -/
+def noFx : Fixes := {}
+
+initialize baseFx : IO.Ref Fixes ← IO.mkRef noFx
+
+def finishCase (prop : String) (memo : IO.Ref (Option Fixes)) (c : CaseIn) : IO (Bool × Bool) := do
+  let base ← baseFx.get
+  let v0 := evalCase prop c base
+  -- on a mismatch with the code-as-found model try the repaired variants (the one that matched
+  -- the previous case first)
+  let last ← memo.get
+  let cands : List Fixes := (match last with | some f => [f] | none => []) ++ [noFx] ++ allFixes
+  let found : Option (Fixes × Verdict) :=
+    if v0.kOk then none
+    else cands.findSome? fun fx => let v := evalCase prop c fx; if v.kOk then some (fx, v) else none
+  if let some (fx, _) := found then memo.set (some fx)
+  let (v, variantOk) := match found with
+    | some (fx, v) => (v, if fx == noFx then "faithful" else s!"fixed:{fxName fx}")
+    | none => (v0, if base == noFx then "faithful" else s!"fixed:{fxName base}")
   let pattern := v.pattern
   let line := if !v.kOk then v.kLine else if !v.oOk then v.oLine else 0
   let detail := if !v.kOk then "K: " ++ v.kDetail else if !v.oOk then "O: " ++ v.oDetail else "-"
-  let variant := if v.kOk then "faithful" else "-"
+  let variant := if v.kOk then variantOk else "-"
   let cov := if v.cov.isEmpty then "-" else ",".intercalate v.cov
   IO.println s!"CASE {c.n} K={if v.kOk then "ok" else "mismatch"} O={if v.oOk then "ok" else "fail"} variant={variant} pattern={pattern} line={line} cov={cov} detail={detail}"
   return (v.kOk, v.oOk)
 
-partial def readLoop (prop : String) (h : IO.FS.Handle) (lineNo : Nat) (cur : Option CaseIn)
+partial def readLoop (prop : String) (memo : IO.Ref (Option Fixes)) (h : IO.FS.Handle) (lineNo : Nat) (cur : Option CaseIn)
     (cases kmis ofail : Nat) : IO (Nat × Nat × Nat) := do
   let raw ← h.getLine
   if raw.isEmpty then
     match cur with
     | some c =>
-      let (k, o) ← finishCase prop c
+      let (k, o) ← finishCase prop memo c
       return (cases + 1, kmis + (if k then 0 else 1), ofail + (if o then 0 else 1))
     | none => return (cases, kmis, ofail)
   else
@@ -304,14 +347,14 @@ partial def readLoop (prop : String) (h : IO.FS.Handle) (lineNo : Nat) (cur : Op
     let lineNo := lineNo + 1
     let toks := (l.splitOn " ").filter (· ≠ "")
     match toks with
-    | "CASE" :: n :: _ => readLoop prop h lineNo (some { n := n }) cases kmis ofail
+    | "CASE" :: n :: _ => readLoop prop memo h lineNo (some { n := n }) cases kmis ofail
     | "CFG" :: rest =>
-      readLoop prop h lineNo (cur.map fun c => parseCfg c rest) cases kmis ofail
+      readLoop prop memo h lineNo (cur.map fun c => parseCfg c rest) cases kmis ofail
     | "OP" :: actor :: rest =>
       let c := cur.getD {}
       let host := natOf (actor.drop 1).toString
       let r : Rec := { line := lineNo, host := host, op := parseOp c.pool rest }
-      readLoop prop h lineNo (some { c with recs := c.recs.push r }) cases kmis ofail
+      readLoop prop memo h lineNo (some { c with recs := c.recs.push r }) cases kmis ofail
     | "ORA" :: kind :: val :: _ =>
       let c := cur.getD {}
       let recs := if c.recs.isEmpty then c.recs else
@@ -319,20 +362,20 @@ partial def readLoop (prop : String) (h : IO.FS.Handle) (lineNo : Nat) (cur : Op
           if kind = "coin" then { r with ora := { r.ora with coin := natOf val != 0 } }
           else if kind = "torn" then { r with ora := { r.ora with torn := r.ora.torn ++ [natOf val] } }
           else r
-      readLoop prop h lineNo (some { c with recs := recs }) cases kmis ofail
+      readLoop prop memo h lineNo (some { c with recs := recs }) cases kmis ofail
     | "OBS" :: _ =>
       let c := cur.getD {}
       let obs := (l.drop 4).toString
       let recs := if c.recs.isEmpty then c.recs.push { line := lineNo, host := 0, op := none, obs := obs } else
         c.recs.modify (c.recs.size - 1) fun r => { r with obs := obs }
-      readLoop prop h lineNo (some { c with recs := recs }) cases kmis ofail
+      readLoop prop memo h lineNo (some { c with recs := recs }) cases kmis ofail
     | ["END"] =>
       match cur with
       | some c =>
-        let (k, o) ← finishCase prop c
-        readLoop prop h lineNo none (cases + 1) (kmis + (if k then 0 else 1)) (ofail + (if o then 0 else 1))
-      | none => readLoop prop h lineNo none cases kmis ofail
-    | _ => readLoop prop h lineNo cur cases kmis ofail
+        let (k, o) ← finishCase prop memo c
+        readLoop prop memo h lineNo none (cases + 1) (kmis + (if k then 0 else 1)) (ofail + (if o then 0 else 1))
+      | none => readLoop prop memo h lineNo none cases kmis ofail
+    | _ => readLoop prop memo h lineNo cur cases kmis ofail
 
 /-! ### pure-Lean enumeration: impl model vs spec (no Rust involved) -/
 
@@ -437,9 +480,17 @@ def main (args : List String) : IO UInt32 := do
   match args with
   | ["enum", prop, len] => Drv.enumRun prop len.toNat! false; return 0
   | ["enum", prop, len, "full"] => Drv.enumRun prop len.toNat! true; return 0
+  | [prop, file, "--fx", fx] =>
+    Drv.baseFx.set (Drv.parseFx fx)
+    let h ← IO.FS.Handle.mk file .read
+    let memo ← IO.mkRef (none : Option TV.Fs.Fixes)
+    let (cases, kmis, ofail) ← Drv.readLoop prop memo h 0 none 0 0 0
+    IO.println s!"SUMMARY cases={cases} kmismatch={kmis} ofail={ofail}"
+    return 0
   | [prop, file] =>
     let h ← IO.FS.Handle.mk file .read
-    let (cases, kmis, ofail) ← Drv.readLoop prop h 0 none 0 0 0
+    let memo ← IO.mkRef (none : Option Fixes)
+    let (cases, kmis, ofail) ← Drv.readLoop prop memo h 0 none 0 0 0
     IO.println s!"SUMMARY cases={cases} kmismatch={kmis} ofail={ofail}"
     return 0
   | _ =>
